@@ -61,12 +61,17 @@ class Builder:
         # words parsed earlier that this body computes fields from: closure captures that are outputs of the parent's
         # parse calls (`temp` inside seq!{..}), or this body's own `parse_next(..)?` results
         self.words = {}
+        self.cap_ctx = None
         if captured and parent:
             pan, pcalls = parent
             for j, c in enumerate(captured):
                 w = self.which_call(pan, pcalls, c)
                 if w != "?":
                     self.words[("cap", j)] = "^%s" % w
+            # captures that are values the enclosing body computed from its parsed words (`let top = (temp >> 23) & 1 != 0;`
+            # before the seq!): rendered in the enclosing body's context
+            pwords = {("call", bb_): "^%d" % (i_ + 1) for i_, (bb_, _) in enumerate(pcalls)}
+            self.cap_ctx = (pan, Sym(self.prog, pan, slice_param=99), list(captured), pwords)
         b = self.prog.bodies.get(path)
         if b is None:
             return G("unknown", name=path)
@@ -109,6 +114,10 @@ class Builder:
         g = G("seq", kids)
         if out:
             g.attr["out"] = out
+        else:
+            oks_ = an.ok_sites()
+            if oks_ and all(strip(t_[2][0]) == ("aggr", "tuple", ()) for _, t_ in oks_):
+                g.attr["unit"] = 1
         # tail call form: `_0 = parse_next(..)` (no Ok aggregate)
         return g
 
@@ -167,6 +176,20 @@ class Builder:
             if s == "combinator::alt":
                 inner = self.parser_grammar(an, sy, a[0], captured, depth + 1)
                 return G("alt", inner.kids if inner.kind == "seq" else [inner])
+            if s in ("token::literal", "token::tag") and len(a) == 1:
+                lt = unmut(a[0])
+                while lt[0] == "cast":
+                    lt = unmut(lt[2])
+                if lt[0] in ("bytes", "mem"):
+                    return G("lit", bytes="".join("%02x" % b for b in lt[1]), w=len(lt[1]))
+                if lt[0] == "cdef":
+                    try:
+                        v = self.prog.const_lit(lt[1])
+                        if isinstance(v, (bytes, bytearray, list)) and all(isinstance(b, int) for b in v):
+                            return G("lit", bytes="".join("%02x" % b for b in v), w=len(v))
+                    except Exception:
+                        pass
+                return G("unknown", name=s)
             if s == "token::take":
                 p = sy.poly(a[0])
                 n = int(p.const_value()) if p is not None and p.is_const() else None
@@ -209,6 +232,27 @@ class Builder:
     def sem(self, t, width=24):
         """semantic signature `<word>:<signature>` of a bit-level expression over one previously parsed 24-bit word, or None"""
         found = []
+        sy_ = getattr(self, "_sy", None)
+
+        def fold(x):
+            """constant subterms (`(1 << TOP_BIT_SHIFT) - 1`) as literals"""
+            if not isinstance(x, tuple) or not x or sy_ is None:
+                return x
+            if x[0] in ("bin", "cast", "cdef"):
+                try:
+                    px = sy_.poly(x)
+                except Exception:
+                    px = None
+                if px is not None and px.is_const() and px.const_value() == int(px.const_value()) and px.const_value() >= 0:
+                    return ("const", int(px.const_value()), "u64")
+            if x[0] == "bin" and len(x) == 4:
+                return (x[0], x[1], fold(x[2]), fold(x[3]))
+            if x[0] == "cast":
+                return (x[0], x[1], fold(x[2])) + tuple(x[3:])
+            if x[0] == "un":
+                return (x[0], x[1], fold(x[2]))
+            return x
+        t = fold(t)
 
         def is_var(x):
             w = self.word_of(x)
@@ -221,8 +265,26 @@ class Builder:
             return None
         return "%s:%s" % (found[0], sg)
 
+    def capture_of(self, t0):
+        x = t0
+        while x[0] in ("ref", "deref") and x[1] != ("param", 1):
+            x = x[1]
+        if x[0] == "field" and x[1] in (("param", 1), ("deref", ("param", 1))):
+            return x[2]
+        return None
+
     def value_name(self, an, sy, t):
         t0 = strip(t)
+        j = self.capture_of(t0)
+        if j is not None and self.cap_ctx is not None and ("cap", j) not in self.words and j < len(self.cap_ctx[2]):
+            pan, psy, caps, pwords = self.cap_ctx
+            saved = (self.words, self.cap_ctx)
+            self.words, self.cap_ctx = dict(pwords), None
+            try:
+                return self.value_name(pan, psy, caps[j])
+            finally:
+                self.words, self.cap_ctx = saved
+        self._sy = sy
         if t0[0] == "var":
             # if c {A} else {B}: render both definitions with their guards
             outs = []
@@ -255,6 +317,7 @@ class Builder:
 
     def expr(self, an, sy, t):
         t = strip(t)
+        self._sy = sy
         if t[0] == "aggr" and t[1].startswith("adt:") and not t[2]:
             return t[1].split("::")[-1]
         sg = self.sem(t)
@@ -310,24 +373,31 @@ class Builder:
 
     def fold_name(self, an, t):
         ci = closure_info(self.prog, an, strip(t))
+        off = 0
         if not ci:
-            return "?"
+            f0 = strip(t)
+            if f0[0] == "fn" and f0[1] in self.prog.bodies:
+                ci = (self.prog.bodies[f0[1]], [])       # `separated_foldl1(.., .., join_runs)`: a named function
+                off = -1                                   # its parameters are (left, sep, right) = 1, 2, 3
+            else:
+                return "?"
         cb, cap = ci
         self.res.functions.add(cb.path)
         can = analysis(self.prog, cb)
         rets = [strip(x) for x in closure_ret(self.prog, cb)]
         apps = [(bb, tt) for bb, tt in cb.calls() if short(cname(tt)) == "Vec::<T, A>::append"]
-        if len(rets) == 1 and rets[0] == ("param", 2) and len(apps) == 1:
+        L_, R_ = ("param", 2 + off), ("param", 4 + off)
+        if len(rets) == 1 and rets[0] == L_ and len(apps) == 1:
             a0 = unmut(can.terms.operand(apps[0][1]["args"][0]))
             a1 = unmut(can.terms.operand(apps[0][1]["args"][1]))
-            if a0 == ("param", 2) and a1 == ("param", 4):
+            if a0 == L_ and a1 == R_:
                 return "append(left,right)->left"
         exts = [(bb, tt) for bb, tt in cb.calls() if short(cname(tt)) in ("Extend::extend", "Vec::<T, A>::extend")]
-        if len(rets) == 1 and rets[0] == ("param", 2) and len(exts) == 1 and not apps:
+        if len(rets) == 1 and rets[0] == L_ and len(exts) == 1 and not apps:
             # `l.extend(r)` with the right vector by value: the same elements in the same order
             a0 = unmut(can.terms.operand(exts[0][1]["args"][0]))
             a1 = unmut(can.terms.operand(exts[0][1]["args"][1]))
-            if a0 == ("param", 2) and a1 == ("param", 4):
+            if a0 == L_ and a1 == R_:
                 return "append(left,right)->left"
         return "other"
 
@@ -467,6 +537,10 @@ def canon(g, top=True):
             return G("void", [void_norm(walk(k)) for k in x.kids], **a)
         return G(x.kind, [walk(k) for k in x.kids], **x.attr)
     g = walk(g)
+    if top and g.kind == "seq" and len(g.kids) > 1 and not g.attr.get("out") and g.attr.get("unit") and all(k.kind in ("lit", "leaf", "take", "skip") for k in g.kids):
+        # `a.parse_next(i)?; b.parse_next(i)?; Ok(())` is `(a, b).void().parse_next(i)`
+        inner = void_norm(G("seq", [G(k.kind, k.kids, **{kk: vv for kk, vv in k.attr.items() if kk != "#"}) for k in g.kids]))
+        g = G("seq", [G("void", [inner], **{"#": 1})])
     if g.kind == "seq" and g.kids and g.kids[-1].kind == "seq" and g.kids[-1].attr.get("out") and not g.attr.get("out"):
         inner = g.kids[-1]
         outer = g.kids[:-1]
